@@ -1,4 +1,4 @@
-package props
+package c05
 
 import (
 	"fmt"
